@@ -42,6 +42,17 @@ class Unsupported(Exception):
     pass
 
 
+# data-layer functions that (can) work in place on their first argument
+DATA_INPLACE_NAMES = ("tidyup", "tidyup_csr", "tidyup_dense", "tidyup_dia", "clean_dia",
+                      "column_stack_dense", "column_unstack_dense", "iadd_dense", "imul",
+                      "imul_csr", "imul_data", "imul_dense", "imul_dia")
+
+
+def _data_inplace(name):
+    return name in DATA_INPLACE_NAMES or name.startswith(("iadd", "imul", "isub", "idiv")) \
+        or "inplace" in name
+
+
 ALL = ["*"]
 ITEMS = ["[]"]
 # fields that hold a container owned exclusively by the object (QobjEvo)
@@ -69,6 +80,8 @@ FUNCS = [
     ("MultiTrajResult._post_init", "qutip/solver/multitrajresult.py", "MultiTrajResult._post_init", ["self"], None),
     ("MultiTrajResult.merge", "qutip/solver/multitrajresult.py", "MultiTrajResult.merge", [], None),
     ("_TrajectorySum.merge", "qutip/solver/multitrajresult.py", "_TrajectorySum.merge", [], None),
+    ("QobjEvo.__init__", "qutip/core/cy/qobjevo.pyx", "QobjEvo.__init__", ["self"], None),
+    ("QobjEvo._read_element", "qutip/core/cy/qobjevo.pyx", "QobjEvo._read_element", ["self"], None),
     ("QobjEvo.copy", "qutip/core/cy/qobjevo.pyx", "QobjEvo.copy", [], None),
     ("QobjEvo.__add__", "qutip/core/cy/qobjevo.pyx", "QobjEvo.__add__", [], None),
     ("QobjEvo.__radd__", "qutip/core/cy/qobjevo.pyx", "QobjEvo.__radd__", [], None),
@@ -100,6 +113,27 @@ FUNCS = [
     ("BRSolver.__init__", "qutip/solver/brmesolve.py", "BRSolver.__init__", ["self"], None),
     ("brmesolve", "qutip/solver/brmesolve.py", "brmesolve", ["kwargs"], None),
     ("krylovsolve", "qutip/solver/krylovsolve.py", "krylovsolve", [], None),
+    # ---- third wave: solver-level entry points
+    ("steadystate", "qutip/solver/steadystate.py", "steadystate", ["kwargs"], None),
+    ("_permute_wbm", "qutip/solver/steadystate.py", "_permute_wbm", [], None),
+    ("_permute_rcm", "qutip/solver/steadystate.py", "_permute_rcm", [], None),
+    ("_reverse_rcm", "qutip/solver/steadystate.py", "_reverse_rcm", [], None),
+    ("_steadystate_direct", "qutip/solver/steadystate.py", "_steadystate_direct", ["kw"], None),
+    ("_steadystate_eigen", "qutip/solver/steadystate.py", "_steadystate_eigen", ["kw"], None),
+    ("_steadystate_svd", "qutip/solver/steadystate.py", "_steadystate_svd", ["kw"], None),
+    ("_steadystate_expm", "qutip/solver/steadystate.py", "_steadystate_expm", ["kw"], None),
+    ("_steadystate_power", "qutip/solver/steadystate.py", "_steadystate_power", ["kw"], None),
+    ("pseudo_inverse", "qutip/solver/steadystate.py", "pseudo_inverse", ["kwargs"], None),
+    ("propagator", "qutip/solver/propagator.py", "propagator", ["kwargs"], None),
+    ("propagator_steadystate", "qutip/solver/propagator.py", "propagator_steadystate", [], None),
+    ("correlation_2op_1t", "qutip/solver/correlation.py", "correlation_2op_1t", [], None),
+    ("correlation_2op_2t", "qutip/solver/correlation.py", "correlation_2op_2t", [], None),
+    ("correlation_3op_1t", "qutip/solver/correlation.py", "correlation_3op_1t", [], None),
+    ("_make_solver", "qutip/solver/correlation.py", "_make_solver", [], None),
+    ("correlation_3op", "qutip/solver/correlation.py", "correlation_3op", ["solver"], None),
+    ("spectrum", "qutip/solver/spectrum.py", "spectrum", [], None),
+    ("_spectrum_es", "qutip/solver/spectrum.py", "_spectrum_es", [], None),
+    ("_spectrum_pi", "qutip/solver/spectrum.py", "_spectrum_pi", [], None),
     ("FMESolver.__init__", "qutip/solver/floquet.py", "FMESolver.__init__", ["self"], None),
     ("StochasticSolver.__init__", "qutip/solver/stochastic.py", "StochasticSolver.__init__", ["self"], "MultiTrajSolver"),
     ("smesolve", "qutip/solver/stochastic.py", "smesolve", ["kwargs"], None),
@@ -123,21 +157,30 @@ INLINE = {
     ("MultiTrajResult.merge", "self.__class__"): ("MultiTrajResult.__init__", "new"),
     ("MultiTrajResult.__init__", "super().__init__"): ("_BaseResult.__init__", "self"),
     ("MultiTrajResult.__init__", "._post_init"): ("MultiTrajResult._post_init", "self"),
+    ("QobjEvo.__init__", ".arguments"): ("QobjEvo.arguments", "self"),
+    ("QobjEvo.__init__", ".compress"): ("QobjEvo.compress", "self"),
 }
 
 # augmented assignments whose target holds an immutable scalar at run time
 # (confirmed on real objects by the harness, probe `immutable_targets`)
 IMMUTABLE_TARGETS = {
     "MultiTrajResult.merge": ['new.stats["run time"]'],
+    # `A += ...` on a Qobj rebinds (Qobj has no in-place operators; these
+    # functions refuse a QobjEvo): probe qobj_immutable_augassign
+    "steadystate": ["A"], "_steadystate_power": ["A"], "pseudo_inverse": ["L"],
+    # amplitudes are Python complex numbers (probe expect_returns_scalar)
+    "_spectrum_es": ["clean_ampls[-1]"],
     "_BaseResult.add_processor": [],
 }
 
 
-def S(mut=(), ret=("new", []), contract=None, probe=None, fallback=None):
+def S(mut=(), ret=("new", []), contract=None, probe=None, fallback=None, mut_path=()):
     """fallback = (extra owned parameters, extra mut): used instead of the
-    plain contract when the callee's own obligation does not hold"""
+    plain contract when the callee's own obligation does not hold.
+    mut_path = [(k, field, W)]: the callee writes fields W of the container
+    held in `field` of argument k (not the field itself)."""
     return {"mut": list(mut), "ret": ret, "contract": contract, "probe": probe,
-            "fallback": fallback}
+            "fallback": fallback, "mut_path": list(mut_path)}
 
 
 # branches not covered (documented ownership transfer), by function
@@ -146,6 +189,10 @@ ASSUME = {
                             "isinstance(system, HEOMSolver)": False,
                             "isinstance(system, Solver)": False},
 }
+# exit assertions: on every normal exit of the function these fields of the
+# variable hold containers created during the call (what the constructor
+# summary `RNew EVO_FIELDS` claims)
+EXIT_ASSERT = {"QobjEvo.__init__": ("self", OWNERSHIP_FIELDS)}
 # functions that are only inlined, never an obligation of their own
 INLINE_ONLY = {"MultiTrajResult._post_init"}
 
@@ -167,13 +214,14 @@ SUMMARIES = {
     "partial": S(), "TypeError": S(), "ValueError": S(), "KeyError": S(),
     "NotImplementedError": S(), "getattr": S(ret=OLD),
     "warnings.warn": S(), "np.*": S(), "numbers.*": S(), "itertools.product": S(),
-    "_data.*": S(probe="data_fresh"),
+    "_data.*": S(probe="data_fresh"), "scipy.*": S(),
+    "_data.INPLACE": S(mut=[(0, ALL)], ret=("arg", 0), probe="data_inplace"),
     "Dimensions": S(), "qeye": S(), "qutip.qeye": S(), "qutip.qeye_like": S(),
     "qutip.tensor": S(),
     "spre": S(probe="spre_fresh"), "spost": S(probe="spre_fresh"),
     "sprepost": S(probe="spre_fresh"),
     "Qobj": S(probe="qobj_ctor"),
-    "QobjEvo": S(ret=("new", EVO_FIELDS), probe="qobjevo_ctor"),
+    "QobjEvo": S(ret=("new", EVO_FIELDS), probe="qobjevo_ctor", contract=("QobjEvo.__init__", [])),
     "coefficient": S(probe="coefficient_fresh"),
     "_ConstantElement": S(), "_EvoElement": S(), "_FuncElement": S(),
     "_MCRHS": S(), "_Feedback": S(),
@@ -199,9 +247,9 @@ SUMMARIES = {
     ".compress": S(mut=[(0, ["elements"])], contract=("QobjEvo.compress", [])),
     ".arguments": S(mut=[(0, EVO_FIELDS)],
                     contract=("QobjEvo.arguments", [])),
-    "._read_args": S(mut=[(0, ["_feedback_functions", "_solver_only_feedback"])],
+    "._read_args": S(mut_path=[(0, "_feedback_functions", ITEMS), (0, "_solver_only_feedback", ITEMS)],
                      contract=("QobjEvo._read_args", [])),
-    "._read_element": S(mut=[(0, ["_dims", "shape"])], probe="read_element"),
+    "._read_element": S(mut=[(0, ["_dims", "shape"])], contract=("QobjEvo._read_element", [])),
     "._register_feedback": S(mut=[(0, ["elements"])],
                              contract=("QobjEvo._register_feedback", [])),
     "._update_feedback": S(mut=[(0, ["_feedback_functions", "_solver_only_feedback"])],
@@ -260,7 +308,38 @@ SUMMARIES = {
     "bloch_redfield_tensor": S(probe="br_tensor_fresh"),
     "floquet_tensor": S(probe="floquet_tensor_fresh"),
     "inspect.signature": S(), ".signature": S(),
-    "qutip.QobjEvo": S(ret=("new", EVO_FIELDS), probe="qobjevo_ctor"),
+    # ---- third wave
+    "RuntimeError": S(), "Exception": S(), "warn": S(), "hilbert_dist": S(), "print": S(), "sorted": S(), "reversed": S(), "map": S(),
+    ".split": S(), ".lower": S(), ".startswith": S(), ".join": S(),
+    ".as_scipy": S(ret=("arg", 0), probe="data_views"), ".as_ndarray": S(ret=("arg", 0), probe="data_views"),
+    ".eigenstates": S(probe="qobj_pure_methods"), ".eigenenergies": S(probe="qobj_pure_methods"),
+    ".unit": S(probe="qobj_pure_methods"), ".expm": S(probe="qobj_pure_methods"),
+    ".inv": S(probe="qobj_pure_methods"), ".ptrace": S(probe="qobj_pure_methods"),
+    ".proj": S(probe="qobj_pure_methods"), ".transform": S(probe="qobj_pure_methods"),
+    ".to_array": S(), ".tolist": S(), ".flatten": S(), ".reshape": S(ret=("arg", 0)),
+    ".conjugate": S(), ".astype": S(), ".nonzero": S(), ".toarray": S(), ".tocsc": S(),
+    ".tocsr": S(), ".transpose": S(), ".sort": S(mut=[(0, ITEMS)]), ".solve": S(),
+    ".dot": S(), ".diagonal": S(), ".sum": S(), ".mean": S(), ".max": S(), ".min": S(),
+    "rand_dm": S(), "qeye_like": S(), "isket": S(), "isoper": S(), "issuper": S(), "isbra": S(),
+    "ket2dm": S(probe="state_helpers"), "operator_to_vector": S(probe="state_helpers"),
+    "vector_to_operator": S(probe="state_helpers"), "stack_columns": S(probe="state_helpers"),
+    "unstack_columns": S(probe="state_helpers"), "expect": S(probe="state_helpers"),
+    "_permute_wbm": S(contract=("_permute_wbm", [])), "_permute_rcm": S(contract=("_permute_rcm", [])),
+    "_reverse_rcm": S(contract=("_reverse_rcm", [])),
+    "steadystate": S(contract=("steadystate", [])),
+    "_steadystate_direct": S(contract=("_steadystate_direct", [])),
+    "_steadystate_eigen": S(contract=("_steadystate_eigen", [])),
+    "_steadystate_svd": S(contract=("_steadystate_svd", [])),
+    "_steadystate_expm": S(contract=("_steadystate_expm", [])),
+    "_steadystate_power": S(contract=("_steadystate_power", [])),
+    "_make_solver": S(contract=("_make_solver", [])),
+    "correlation_3op": S(mut=[("solver", ALL)], contract=("correlation_3op", [])),
+    "_correlation_3op_dm": S(mut=[(0, ALL)], probe="correlation_3op_dm"),
+    "_spectrum_es": S(contract=("_spectrum_es", [])), "_spectrum_pi": S(contract=("_spectrum_pi", [])),
+    "_compute_precond": S(), "_diagonal_evolution": S(ret=("new", ["[]"]), probe="diagonal_evolution"),
+    "Propagator": S(contract=("Propagator.__init__", [])),
+    "propagator": S(contract=("propagator", [])),
+    "qutip.QobjEvo": S(ret=("new", EVO_FIELDS), probe="qobjevo_ctor", contract=("QobjEvo.__init__", [])),
     "HierarchyADOs": S(probe="heom_ctor"), "CoreOptions": S(),
     "._combine_bath_exponents": S(probe="heom_ctor"),
     "._calculate_rhs": S(mut=[(0, ALL)], probe="heom_ctor"),
@@ -378,6 +457,48 @@ class Compiler:
                 self.locals.add(n.id)
             if isinstance(n, (ast.Global, ast.Nonlocal)):
                 raise Unsupported("global/nonlocal")
+        # names that only ever hold a list built in this function: `x += ...`
+        # on them extends the list (writes its items), nothing else
+        def listy(e, names):
+            if isinstance(e, (ast.List, ast.ListComp)):
+                return True
+            if isinstance(e, ast.Call) and isinstance(e.func, ast.Name) and e.func.id == "list":
+                return True
+            if isinstance(e, ast.BinOp) and isinstance(e.op, ast.Add):
+                return listy(e.left, names) and listy(e.right, names)
+            if isinstance(e, ast.Name):
+                return e.id in names
+            return False
+        assigns = {}
+        for n in ast.walk(fn):
+            if isinstance(n, ast.Assign):
+                for tg in n.targets:
+                    for nm in ast.walk(tg):
+                        if isinstance(nm, ast.Name):
+                            assigns.setdefault(nm.id, []).append(
+                                n.value if isinstance(tg, ast.Name) else None)
+            elif isinstance(n, (ast.For, ast.comprehension)):
+                for nm in ast.walk(n.target):
+                    if isinstance(nm, ast.Name):
+                        assigns.setdefault(nm.id, []).append(None)
+            elif isinstance(n, (ast.AnnAssign, ast.NamedExpr)) and isinstance(n.target, ast.Name):
+                assigns.setdefault(n.target.id, []).append(n.value)
+            elif isinstance(n, ast.With):
+                for it in n.items:
+                    if it.optional_vars is not None:
+                        for nm in ast.walk(it.optional_vars):
+                            if isinstance(nm, ast.Name):
+                                assigns.setdefault(nm.id, []).append(None)
+        self.list_vars = set()
+        changed = True
+        cand = {k for k in assigns if k not in self.params}
+        while changed:
+            changed = False
+            for k in sorted(cand - self.list_vars):
+                if all(v is not None and listy(v, self.list_vars | {k}) for v in assigns[k]) \
+                        and any(not isinstance(v, ast.Name) for v in assigns[k]):
+                    self.list_vars.add(k)
+                    changed = True
         self.immutable = IMMUTABLE_TARGETS.get(fname, [])
         self.rename = {}
         self.failed = set()
@@ -427,11 +548,18 @@ class Compiler:
             return f.id, None
         if isinstance(f, ast.Attribute):
             base = f.value
-            if isinstance(base, ast.Name) and base.id in ("_data", "np", "numbers"):
+            if isinstance(base, ast.Name) and base.id == "_data" and _data_inplace(f.attr):
+                return "_data.INPLACE", None      # iadd_dense, imul_*, tidyup*, *(inplace=...)
+            if isinstance(base, ast.Name) and base.id in ("_data", "np", "numbers", "scipy"):
                 return base.id + ".*", None
             if isinstance(base, ast.Attribute) and isinstance(base.value, ast.Name) \
-                    and base.value.id == "_data":
-                return "_data.*", None
+                    and base.value.id in ("_data", "np", "scipy"):
+                if base.value.id == "_data" and _data_inplace(f.attr):
+                    return "_data.INPLACE", None
+                return base.value.id + ".*", None
+            if isinstance(base, ast.Attribute) and isinstance(base.value, ast.Attribute) \
+                    and isinstance(base.value.value, ast.Name) and base.value.value.id in ("scipy", "np"):
+                return base.value.value.id + ".*", None
             if isinstance(base, ast.Name) and base.id in ("warnings", "itertools", "qutip") \
                     and base.id not in self.locals:
                 return base.id + "." + f.attr, None
@@ -448,6 +576,12 @@ class Compiler:
             if f.attr == "__class__":
                 return "self.__class__", None
             return "." + f.attr, base
+        if isinstance(f, ast.Subscript) and isinstance(f.value, ast.Attribute) \
+                and isinstance(f.value.value, ast.Name) and f.value.value.id == "_data":
+            # a specialisation picked from a dispatcher: _data.one_element[dtype](...)
+            if _data_inplace(f.value.attr):
+                return "_data.INPLACE", None
+            return "_data.*", None
         raise Unsupported("call of %s" % ast.dump(f)[:60])
 
     # -- expressions: return the variable holding the value
@@ -701,9 +835,15 @@ class Compiler:
                 if idx is not None:
                     mut.append((idx, W))
         else:
-            if s["probe"]:
-                self.probes.add(s["probe"])
             mut = [(k, W) for k, W in s["mut"]]
+        if s["probe"]:
+            self.probes.add(s["probe"])
+        for k, fld, W in s["mut_path"]:
+            tp = self.temp()
+            self.fields.add(fld)
+            self.assign(out, tp, "ELoad %s %s" % (q(args[k]), q(fld)))
+            tq = self.temp()
+            self.assign(out, tq, self.call_ir([(0, W)], NEW, [tp]))
         t = self.temp()
         if s["ret"][0] == "argornew":
             t0 = self.temp()
@@ -784,9 +924,10 @@ class Compiler:
             return "SSkip"
         return "seqs [%s]" % ";\n ".join(stmts) if len(stmts) > 1 else stmts[0]
 
-    def aug(self, x, val, out, rebind_only=False):
+    def aug(self, x, val, out, rebind_only=False, items_only=False):
         """x op= val on the variable x (IR variable name)"""
-        inplace = "SAssign %s (%s)" % (q(x), self.call_ir([(0, ALL)], ("arg", 0), [x, val]))
+        inplace = "SAssign %s (%s)" % (q(x), self.call_ir([(0, ITEMS if items_only else ALL)],
+                                                          ("arg", 0), [x, val]))
         rebind = "SAssign %s (%s)" % (q(x), self.call_ir([], NEW, [x, val]))
         if rebind_only:
             out.append(rebind)
@@ -796,6 +937,17 @@ class Compiler:
     def stmts(self, body, out):
         for st in body:
             self.stmt(st, out)
+
+    def exit_assert(self, out):
+        if self.prefix or self.fname not in EXIT_ASSERT:
+            return
+        var, flds = EXIT_ASSERT[self.fname]
+        for f in flds:
+            t = self.temp()
+            self.fields.add(f)
+            self.assign(out, t, "ELoad %s %s" % (q(self.v(var)), q(f)))
+            t2 = self.temp()
+            self.assign(out, t2, self.call_ir([(0, [])], NEW, [t]))
 
     def stmt(self, st, out):
         if isinstance(st, ast.Expr):
@@ -825,8 +977,12 @@ class Compiler:
             tg = st.target
             txt = ast.unparse(tg).replace("'", '"')
             ro = txt in self.immutable
+            if ro:
+                self.probes.add({"MultiTrajResult.merge": "immutable_targets",
+                                 "_spectrum_es": "expect_returns_scalar"}.get(
+                                     self.fname, "qobj_immutable_augassign"))
             if isinstance(tg, ast.Name):
-                self.aug(self.v(tg.id), val, out, ro)
+                self.aug(self.v(tg.id), val, out, ro, items_only=tg.id in self.list_vars)
             elif isinstance(tg, ast.Attribute):
                 b = self.expr(tg.value, out)
                 t = self.temp()
@@ -866,6 +1022,7 @@ class Compiler:
             self.expr(st.test, body)
             out.append("SLoop (%s)" % self.block(body))
         elif isinstance(st, ast.Return):
+            self.exit_assert(out)
             if st.value is not None:
                 self.assign(out, self.v("$ret"), "EVar %s" % q(self.expr(st.value, out)))
             if self.prefix:
@@ -927,6 +1084,7 @@ def translate(fname, extra_owned=(), repo=None, failed=()):
     c.failed = set(failed)
     out = []
     c.stmts(fn.body, out)
+    c.exit_assert(out)
     owned_all = [p for p in c.params if p in set(owned) | set(extra_owned)]
     def ofields(p):
         if p == "self" and fname.split(".")[0] in OWNED_FIELDS:
